@@ -277,7 +277,7 @@ func VsymC19() {
 	}
 	// one foreign or hostile referrer of subject A
 	cfg := vr.JObj("mediaType", vr.JStr(ArtifactTypeNotation), "digest", vr.JStr(string(ocispec.DescriptorEmptyJSON.Digest)), "size", vr.JNum(2))
-	hostile := vr.Choice("foreignReferrer", 10)
+	hostile := vr.Choice("foreignReferrer", 11)
 	var hostileDesc ocispec.Descriptor
 	hostileListed, hostileFetchable := false, false
 	var hostileBlob ocispec.Descriptor
@@ -316,6 +316,9 @@ func VsymC19() {
 	case 8: // a manifest declared larger than the cap
 		b := blobOf("big-manifest")
 		hostileDesc = inject(c19ImageMT, vr.JObj("schemaVersion", vr.JNum(2), "mediaType", vr.JStr(c19ImageMT), "config", cfg, "layers", vr.JArr(c19Desc(b)), "subject", c19Desc(subjA)), refsA, maxManifestSizeLimit+1)
+	case 10: // a legacy artifact manifest declared larger than the manifest cap
+		b := blobOf("big-legacy")
+		hostileDesc = inject(c19ArtifactMT, vr.JObj("mediaType", vr.JStr(c19ArtifactMT), "artifactType", vr.JStr(ArtifactTypeNotation), "blobs", vr.JArr(c19Desc(b)), "subject", c19Desc(subjA)), refsA, maxManifestSizeLimit+1)
 	case 9: // legacy artifact manifest with two blobs
 		b1, b2 := blobOf("l-first"), blobOf("l-second")
 		hostileDesc = inject(c19ArtifactMT, vr.JObj("mediaType", vr.JStr(c19ArtifactMT), "artifactType", vr.JStr(ArtifactTypeNotation), "blobs", vr.JArr(c19Desc(b1), c19Desc(b2)), "subject", c19Desc(subjA)), refsA, 0)
@@ -339,12 +342,12 @@ func VsymC19() {
 			listed = append(listed, l...)
 			return nil
 		})
-		if hostile == 8 && si == 1 && subjB.Digest == subjA.Digest {
+		if (hostile == 8 || hostile == 10) && si == 1 && subjB.Digest == subjA.Digest {
 			// the store model indexes referrers by digest only: whether the oversized referrer of A shows up
 			// for a subject that merely shares A's digest is left open
 			continue
 		}
-		if hostile == 8 && si == 0 {
+		if (hostile == 8 || hostile == 10) && si == 0 {
 			vr.Assert(err != nil, "an oversized referrer manifest is refused")
 			for _, f := range fetched() {
 				vr.Assert(f != hostileDesc.Digest, "an oversized referrer manifest is refused before its content is fetched")
@@ -391,7 +394,7 @@ func VsymC19() {
 		vr.Assert(err == nil && string(blob) == string(p.blob) && bd.MediaType == p.media && bd.Size == int64(len(p.blob)), "fetching a pushed signature yields the identical envelope bytes and media type")
 		vr.Reach("round trip")
 	}
-	if hostile != 0 && hostile != 8 {
+	if hostile != 0 && hostile != 8 && hostile != 10 {
 		resetFetched()
 		blob, _, err := repo.FetchSignatureBlob(ctx, hostileDesc)
 		switch hostile {
